@@ -5,7 +5,7 @@ func init() {
 		"Decides, on every enumerated path of every table-mutating operation and of the eviction callback, that a value which stops being current is reported exactly once atomically (inside the bucket-locked computation, with that node's key/value and the truthful cause) and exactly once deferred (one replay task, run exactly once by runTask, or one direct notification without maintenance), and that nothing is reported when the table is unchanged; the task of a writer that runs maintenance itself is replayed on every path of maintenance (C13.order) and a popped task always reaches runTask (C16.consume) - a dropped task is a lost deferred report. "+
 			"NOT decided: conservation (written = present + reported) over whole histories and races between replacement and eviction of one key beyond the per-path identity test.",
 		[]string{"hashmap.Map.Compute runs its callback exactly once under the bucket lock (C15)", "every enqueued task is replayed exactly once (C16, C05.runTask)"},
-		ruleC06Atomic, ruleC05Task, ruleC05RunTask, ruleEvict, ruleC13Order, ruleC16Consume, ruleC06HandlerNil, ruleC01Config)
+		ruleC06Atomic, ruleC05Task, ruleC05RunTask, ruleEvict, ruleC13Order, ruleC16Consume, ruleC06HandlerNil, ruleC05GetTask, ruleC01Config)
 	register("C09",
 		"Decides that every explicit write/compute/invalidate/eviction clears the key's in-flight load record inside the same bucket-locked computation that changes the mapping (C09.clear) and that the load installer installs or removes only on paths where, inside that computation, its record was still registered (C09.guard = the installer's decision table), so a superseded load cannot overwrite a newer write. "+
 			"The installer's own-record test is an identity test inside the in-flight table's computation (C08.getorcreate: records are removed only by pointer identity). "+
@@ -55,7 +55,7 @@ func init() {
 		"Decides, per path, that policy bookkeeping follows the table: every table change yields exactly one matching replay task (C05.task); the replay handler applies each task kind completely (C05.runTask); add links only alive nodes (C05.alive); the update handler leaves the new node linked - transplant only from a contained predecessor, else window entry (C05.transplant); the eviction callback unlinks, unschedules and kills on all paths (C05.evict); the intrusive deque clears links of removed/replaced nodes and keeps len in step (C05.deque); totals are written only by their handlers (C04.acct); the functions that move entries between the three queues conserve membership, tag and per-queue counters on every path (C05.moves); policy, deque, wheel and node link state is written, and both buffers are consumed, only with the eviction lock held (C05.lockctx); no task is dropped on enqueue (C14.after); every mutator of the timer wheel keeps scheduled <=> linked in exactly one ring - Add links on every path (C13.shape): an entry the wheel does not know is never swept. "+
 			"NOT decided: equality of the counters with the sum of weights and set(Coldest)=set(All) as run-time facts.",
 		[]string{"tasks are replayed exactly once in producer order (C16)"},
-		ruleC05Task, ruleC05RunTask, rulePolicy, ruleC05Moves, ruleDeque, ruleDequeShape, ruleEvict, ruleC05LockCtx, ruleC05LockRead, ruleC14After, ruleC16Consume, ruleWheelShape, ruleC01Config)
+		ruleC05Task, ruleC05RunTask, rulePolicy, ruleC05Moves, ruleDeque, ruleDequeShape, ruleEvict, ruleC05LockCtx, ruleC05LockRead, ruleC14After, ruleC16Consume, ruleWheelShape, ruleC05GetTask, ruleC01Config)
 	register("C07",
 		"Decides the structural clauses of 'entries disappear only for a sanctioned, truthful reason': evictions for size happen only in iterations guarded by weightedSize > maximum and never hit zero-weight entries (C04.loop, C04.zero); window transfers only above the window maximum (C07.window); the eviction callback reports Expiration exactly when the victim is expired at its time and Overflow otherwise, and only the policy (which exists only with a size bound) and the timer wheel call it (C07.causeflow); the wheel expires only on deadline < wheel time and passes that time (C13.nodrop). "+
 			"A deadline that has passed is the entry's own: a write over an absent or expired key takes the create hook and a fresh clock sample (C12.hook), so no entry is born with its predecessor's expired deadline; a loaded value is stored with a clock sample taken when it is stored, not when the load began (C10.finisher), so a slow load does not produce an entry that expires before its deadline. "+
